@@ -10,12 +10,12 @@ from fractions import Fraction
 
 import numpy as np
 
-from common import CoqRunError, coq_Q, coq_list, frac, load_corpus, rng_for
+from common import CoqRunError, coq_Q, coq_list, coq_xq, frac, load_corpus, rng_for
 
-MODELS = ["Base/Corr.vo", "Model/Diagnostics.vo"]
+MODELS = ["Base/Corr.vo", "Base/XQ.vo", "Model/Diagnostics.vo"]
 
 HEADER = """From Coq Require Import QArith ZArith List Bool.
-From TJ Require Import Base.Corr Model.Diagnostics.
+From TJ Require Import Base.Corr Base.XQ Model.Diagnostics.
 Import ListNotations. Open Scope Q_scope.
 Definition close (tol m o : Q) : bool := Qle_bool (Corr.Qabs' (m - o)) tol.
 (* tref, P, times, n_bins, observed mpg, coverage, span, tolerance for span *)
@@ -24,7 +24,7 @@ Definition check (c : Q * Q * list Q * nat * Q * Q * Q * Q) : bool :=
   close (1 # 1000000000) (max_phase_gap tref P ts) o_mpg &&
   close (1 # 1000000000) (phase_coverage tref P nb ts) o_cov &&
   close tol_span (periods_spanned P ts) o_span.
-Definition check_map (c : list Q * list Q * nat) : bool :=
+Definition check_map (c : list XQ * list XQ * nat) : bool :=
   let '(lp, ll, o) := c in Nat.eqb (map_index lp ll) o.
 """
 
@@ -163,6 +163,11 @@ def map_cases(ctx):
             m = tot.max() + 1
             lp[i] = m - ll[i]
             lp[j] = m - ll[j]
+        if n > 1 and rng.random() < 0.5:  # samples outside the prior support / impossible data: -inf entries
+            for _ in range(int(rng.integers(1, 4))):
+                (lp if rng.random() < 0.6 else ll)[int(rng.integers(0, n))] = -np.inf
+            if not np.isfinite(lp + ll).any():
+                lp[0], ll[0] = 0.0, 0.0
         s = JokerSamples()
         s["ln_prior"] = lp
         s["ln_likelihood"] = ll
@@ -219,7 +224,7 @@ def run(ctx):
                 if problems:
                     ctx.fail("predicate", "C19:MAP", "; ".join(problems), case=case)
                 if idx is not None:
-                    terms.append(f"({coq_list([coq_Q(x) for x in case['ln_prior']])}, {coq_list([coq_Q(x) for x in case['ln_likelihood']])}, {idx}%nat)")
+                    terms.append(f"({coq_list([coq_xq(x) for x in case['ln_prior']])}, {coq_list([coq_xq(x) for x in case['ln_likelihood']])}, {idx}%nat)")
                     kept.append(case)
                     nt += 1
             for i in ctx.coq_check_cases("c19_map", HEADER, terms, "check_map", shard=100):
@@ -238,7 +243,7 @@ def run(ctx):
     return ctx.finish(
         rule="random observation sets: 1..30 epochs over 0..5 cycles, duplicates, periods 0.1..1000 d (days or hours), 4 phase layouts "
         "(uniform, clustered away from 0 = largest arc across the wrap, clustered around 0, near-grid), bins 1..50, default or explicit t_ref; "
-        "permuted and time-reversed twins; MAP tables with exact ties. Non-trivial = more than one epoch",
+        "permuted and time-reversed twins; MAP tables with exact ties and -inf entries. Non-trivial = more than one epoch",
         assumptions=[
             "astropy Time/TimeDelta arithmetic agrees with exact arithmetic to 1e-9 in phase (generator keeps phases >=1e-6 from bin edges)",
             "numpy sort/histogram/argmax are the textbook functions",
